@@ -197,17 +197,33 @@ def load_module(prop):
     return importlib.import_module('harness.' + prop.lower())
 
 
+def claimed_props():
+    try:
+        man = json.load(open(os.path.join(VERIF, 'MANIFEST.json')))
+        return [c['property_id'] for c in man.get('checks', [])]
+    except Exception:
+        return ALL_PROPS
+
+
 def setup():
+    """build everything the claimed checks need (properties listed in MANIFEST.checks); other directories are work in progress"""
     t0 = time.time()
+    props = [p for p in ALL_PROPS if p in claimed_props()]
     with Lock():
         gens = sorted(os.path.basename(f)[:-3] for f in glob.glob(os.path.join(VERIF, 'tools', 'gen', 'gen_*.py')))
         for n, ok, msg in run_generators(gens):
             print('gen', n, 'ok' if ok else 'FAILED', msg[-300:])
         write_coqproject()
-        rc, out = sh('timeout 3000 make -j16 2>&1 | tail -40', cwd=COQ, timeout=3100)
+        ok_all = True
+        targets = []
+        for prop in props:
+            for f in coq_files():
+                if f.startswith(prop + '/'):
+                    targets.append(f + 'o')
+        rc, out = sh('timeout 3000 make -k -j16 %s 2>&1 | tail -40' % ' '.join(targets), cwd=COQ, timeout=3100)
         print(out)
         ok_all = 'Error' not in out
-        for prop in ALL_PROPS:
+        for prop in props:
             if os.path.exists(os.path.join(COQ, prop, 'Extract.v')):
                 ok, msg = build_driver(prop)
                 print('driver', prop, 'ok' if ok else 'FAILED', msg[-300:])
